@@ -75,9 +75,12 @@ class Lin:
 class KInt(int):
     """an integer carrying a row/column qualifier ('R' / 'C'): abstract kind of a size or index derived from height / width"""
 
-    def __new__(cls, v: int, kind: Optional[str]) -> "KInt":
+    def __new__(cls, v: int, kind: Optional[str], role: Optional[str] = None) -> "KInt":
         o = int.__new__(cls, v)
         o.kind = kind
+        # provenance within the kind: "ext" = the board extent itself (height / width, +- a constant),
+        # "idx" = a position obtained by iterating over a range of that extent (+- anything of the same kind)
+        o.role = role
         return o
 
 
@@ -96,7 +99,7 @@ def _krange(*a: Any) -> Any:
     r = range(*[int(x) for x in a])
     if len(kinds) == 1:
         k = kinds.pop()
-        return [KInt(v, k) for v in r]
+        return [KInt(v, k, "idx") for v in r]
     return r
 
 
@@ -422,6 +425,11 @@ class Evaluator:
             left = self.eval(n.left, env)
             for op, c in zip(n.ops, n.comparators):
                 right = self.eval(c, env)
+                if self.strict_index and isinstance(op, (ast.Lt, ast.LtE, ast.Gt, ast.GtE)) and isinstance(left, KInt) and isinstance(right, KInt):
+                    # a position along one axis bounded by the extent of the other axis (`y + l < width`)
+                    for pos, ext in ((left, right), (right, left)):
+                        if pos.kind and ext.kind and pos.kind != ext.kind and pos.role == "idx" and ext.role == "ext":
+                            self.kind_events.append((norm(n), norm(n.left if pos is left else c), pos.kind, "cmp:" + ext.kind, getattr(n, "lineno", None)))
                 r = self.compare(op, left, right)
                 if len(n.ops) == 1:
                     return r
@@ -712,12 +720,16 @@ class Evaluator:
         r = self._binop_raw(op, a, b, n)
         if isinstance(r, int) and not isinstance(r, bool) and (isinstance(a, KInt) or isinstance(b, KInt)):
             ka, kb = kind_of(a), kind_of(b)
+            role = None
             if isinstance(op, (ast.Add, ast.Sub)):
                 ks = {ka, kb} - {None}
                 k = ks.pop() if len(ks) == 1 else None
+                if k is not None:
+                    roles = {getattr(x, "role", None) for x in (a, b) if kind_of(x) == k}
+                    role = "idx" if "idx" in roles else ("ext" if roles == {"ext"} and not (ka and kb) else None)
             else:
                 k = ka if kb is None and not isinstance(b, KInt) else (kb if ka is None and not isinstance(a, KInt) else None)
-            return KInt(int(r), k)
+            return KInt(int(r), k, role)
         return r
 
     def _binop_raw(self, op: ast.operator, a: Any, b: Any, n: ast.AST) -> Any:
@@ -1264,6 +1276,20 @@ def _sum(xs: Any, start: Any = 0) -> Any:
     return acc
 
 
+def _base_repr(v: Any, base: Any) -> str:
+    """numpy.base_repr for non-negative integers (digits 0-9 then upper-case letters)"""
+    if not (isinstance(v, int) and isinstance(base, int)) or isinstance(v, bool) or not 2 <= base <= 36:
+        raise Undecided("base_repr on an abstract value")
+    digits = "0123456789ABCDEFGHIJKLMNOPQRSTUVWXYZ"
+    if v == 0:
+        return "0"
+    neg, v, out = v < 0, abs(int(v)), ""
+    while v:
+        out = digits[v % base] + out
+        v //= base
+    return ("-" if neg else "") + out
+
+
 def _filter(f: Any, xs: Any) -> List[Any]:
     out = []
     for x in xs:
@@ -1304,6 +1330,8 @@ BUILTINS: Dict[str, Callable[..., Any]] = {
     "slice": lambda *a: slice(*a),
     "re.compile": _strfn(_re.compile),
     "hex": _strfn(hex),
+    "np.base_repr": lambda v, base=2: _base_repr(v, base),
+    "numpy.base_repr": lambda v, base=2: _base_repr(v, base),
     "ord": _strfn(ord),
     "chr": _strfn(chr),
     "abs": abs,
